@@ -47,6 +47,15 @@ pub enum Scen {
     Simulated { known: bool, zseed: u64, cseed: u64, check_other: bool },
     /// signature proofs on degenerate signatures (Sig kind only; other kinds fall back to Honest)
     Degenerate(u8),
+    /// several fields moved together so that the individual discrepancies compensate:
+    /// which 0 — signature proofs: the Schnorr discrepancy D = δ·B (B ∈ {g~, X~, Y~ᵢ}) is put into T
+    ///           and the matching pairing discrepancy e(σ1', ±D) into σ2' — neither relation holds;
+    ///           other kinds: zᵢ += δ with T ± δ·gᵢ;
+    /// which 1 — C += D, T -= c·D (Schnorr kept) and σ2' += ±δ·b·σ1' (pairing kept for +);
+    ///           other kinds: C += δ·gᵢ with zᵢ ± c·δ;
+    /// which 2 — signature proofs: assembled from the public key alone: σ2 = t·σ1,
+    ///           D = t·g~ − X~ − C, T = Com(z) − c·C ∓ D.
+    Compensated { which: u8, base: u16, d: ScSpec, neg: bool },
 }
 
 #[derive(Clone, Debug, Serialize, Deserialize)]
@@ -87,6 +96,8 @@ fn strategy(_t: Tier) -> impl Strategy<Value = Case> {
         3 => (any::<bool>(), any::<u64>(), any::<u64>(), any::<bool>())
             .prop_map(|(known, zseed, cseed, check_other)| Scen::Simulated { known, zseed, cseed, check_other }),
         2 => (0u8..4).prop_map(Scen::Degenerate),
+        4 => (0u8..3, any::<u16>(), delta_spec(), any::<bool>())
+            .prop_map(|(which, base, d, neg)| Scen::Compensated { which, base, d, neg }),
     ];
     (kind, 0u8..6, 0u8..3, msg_specs(), any::<u64>(), scen).prop_map(|(kind, n_idx, key, msg, seed, scen)| Case {
         kind,
@@ -377,6 +388,96 @@ fn run<const N: usize>(c: &Case, rec: &Rec) -> R {
             compare(rec, "simulated/other-challenge", lib_verify(kind, &sim.bytes, other, &own), ref_verify(kind, &img, &sim.bytes, &other.to_scalar(), &own), Some(false), N, kind)?;
             fp = format!("sim:{}:{}", known, zseed);
         }
+        Scen::Compensated { which, base, d, neg } => {
+            let pre = prefix(kind);
+            let delta = nonzero(d);
+            let kappa = if *neg { -Scalar::one() } else { Scalar::one() };
+            let cpath = format!("{}commitment", pre);
+            let tpath = format!("{}scalar_commitment", pre);
+            let zidx = img.list(&format!("{}message_response_scalars", pre));
+            let mut alt = img.clone();
+            let what: &str;
+            let expect: bool;
+            if kind == PKind::Sig {
+                let k = keys::<N>(c.key as u64);
+                let g2t = G2Projective::from(k.pk.g2);
+                let x2 = G2Projective::from(k.pk.x2);
+                let bi = pick_idx(*base, N + 2);
+                let (bpt, blog) = match bi {
+                    0 => (g2t, Scalar::one()),
+                    1 => (x2, k.sk.x),
+                    i => (G2Projective::from(k.pk.y2s[i - 2]), k.sk.ys[i - 2]),
+                };
+                ensure!(g2t * blog == bpt, "harness/key-atoms-inconsistent", "public key element {} is not g~ to the secret exponent", bi);
+                let dd = bpt * delta;
+                let s1 = G1Projective::from_atom(img.get("blinded_signature.sigma1")).expect("sigma1");
+                let s2 = G1Projective::from_atom(img.get("blinded_signature.sigma2")).expect("sigma2");
+                let cc = G2Projective::from_atom(img.get(&cpath)).expect("C");
+                let tt = G2Projective::from_atom(img.get(&tpath)).expect("T");
+                match which % 3 {
+                    0 => {
+                        // Com(z) - (T' + cC) = D, and e(s1, X~ + C ± D) = e(s2', g~): neither relation holds
+                        alt.set(&tpath, &(tt - dd).to_atom());
+                        alt.set("blinded_signature.sigma2", &(s2 + s1 * (kappa * delta * blog)).to_atom());
+                        what = "compensated/schnorr-and-pairing-off";
+                        expect = false;
+                    }
+                    1 => {
+                        alt.set(&cpath, &(cc + dd).to_atom());
+                        alt.set(&tpath, &(tt - dd * cs).to_atom());
+                        alt.set("blinded_signature.sigma2", &(s2 + s1 * (kappa * delta * blog)).to_atom());
+                        what = if *neg { "compensated/schnorr-kept-pairing-off" } else { "compensated/both-kept" };
+                        expect = !*neg;
+                    }
+                    _ => {
+                        let s1f = G1Projective::generator() * rand_nonzero_scalar(c.seed ^ 0x51);
+                        let t = rand_nonzero_scalar(c.seed ^ 0x52);
+                        let m = scalars::<N>(&c.msg);
+                        let bfv = rand_scalar(c.seed ^ 0x53);
+                        let cf = pedersen(&own.h2, &own.g2s, &m, &bfv);
+                        let dsc = g2t * t - x2 - cf;
+                        let zbf = rand_scalar(c.seed ^ 0x54);
+                        let z: Vec<Scalar> = (0..N as u64).map(|i| rand_scalar((c.seed ^ 0x55).wrapping_add(i))).collect();
+                        let tf = pedersen(&own.h2, &own.g2s, &z, &zbf) - cf * cs - dsc * kappa;
+                        alt.set("blinded_signature.sigma1", &s1f.to_atom());
+                        alt.set("blinded_signature.sigma2", &(s1f * t).to_atom());
+                        alt.set(&cpath, &cf.to_atom());
+                        alt.set(&tpath, &tf.to_atom());
+                        alt.set(&format!("{}blinding_factor_response_scalar", pre), &zbf.to_bytes());
+                        for (j, i) in zidx.iter().enumerate() {
+                            alt.set_at(*i, &z[j].to_bytes());
+                        }
+                        what = "compensated/assembled-from-public-key";
+                        expect = false;
+                    }
+                }
+            } else {
+                let i = pick_idx(*base, N);
+                let zi = wire::sc(img.at(zidx[i])).expect("z_i");
+                let shift = |path: &str, alt: &mut Image, k: Scalar| match kind {
+                    PKind::ComG2 => {
+                        let p = G2Projective::from_atom(img.get(path)).expect("point");
+                        alt.set(path, &(p + own.g2s[i] * k).to_atom());
+                    }
+                    _ => {
+                        let p = G1Projective::from_atom(img.get(path)).expect("point");
+                        alt.set(path, &(p + own.g1s[i] * k).to_atom());
+                    }
+                };
+                if which % 2 == 0 {
+                    alt.set_at(zidx[i], &(zi + delta).to_bytes());
+                    shift(&tpath, &mut alt, kappa * delta);
+                    what = if *neg { "compensated/response-and-T-opposite" } else { "compensated/response-and-T-together" };
+                } else {
+                    shift(&cpath, &mut alt, delta);
+                    alt.set_at(zidx[i], &(zi + kappa * cs * delta).to_bytes());
+                    what = if *neg { "compensated/response-and-C-opposite" } else { "compensated/response-and-C-together" };
+                }
+                expect = !*neg;
+            }
+            compare(rec, what, lib_verify(kind, &alt.bytes, ch, &own), ref_verify(kind, &img, &alt.bytes, &cs, &own), Some(expect), N, kind)?;
+            fp = format!("{}:{}:{:?}", what, base, d);
+        }
         Scen::Degenerate(which) => {
             if kind == PKind::Sig {
                 let k = keys::<N>(c.key as u64);
@@ -453,8 +554,8 @@ fn oracle(c: &Case, rec: &Rec) -> R {
 pub fn checks() -> Vec<CheckDef> {
     vec![prop_check(
         "verifier-relations",
-        "cases = (proof type in {CommitmentProof<G1>, CommitmentProof<G2>, SignatureProof, SignatureRequestProof}, N, key/parameters, message, scenario in {honest, one wire atom replaced (shift/random/identity-or-zero/neighbour), challenge from another transcript, one parameter or key element changed / fresh parameters, simulated transcript (random responses, T := Com(z) - c*C, with and without known opening) under the same and under another challenge, signature proofs on degenerate signatures: all-identity via r=0, blinded signature all-identity via the proof's own re-randomizer = 0, (s1,identity), signature on another message - in memory and after a round trip}); oracle = verifier verdict == independent Schnorr / pairing evaluation on the atoms of the encoded proof and parameters, for accept and reject classes, plus the verdict expected by construction; non-trivial = any non-honest scenario; distinct by (type, N, key, scenario detail)",
-        &["Sig/degenerate/blinded-signature-identity/reject", "Sig/simulated/same-challenge/accept", "ComG1/simulated/other-challenge/reject"],
+        "cases = (proof type in {CommitmentProof<G1>, CommitmentProof<G2>, SignatureProof, SignatureRequestProof}, N, key/parameters, message, scenario in {honest, one wire atom replaced (shift/random/identity-or-zero/neighbour), challenge from another transcript, one parameter or key element changed / fresh parameters, simulated transcript (random responses, T := Com(z) - c*C, with and without known opening) under the same and under another challenge, signature proofs on degenerate signatures: all-identity via r=0, blinded signature all-identity via the proof's own re-randomizer = 0, (s1,identity), signature on another message - in memory and after a round trip, several fields moved together so that discrepancies compensate: Schnorr discrepancy D=delta*B (B in g~, X~, Y~_i) in T with the matching pairing discrepancy +-D in sigma2' (neither relation holds), C+=D with T-=cD and sigma2' adjusted (both kept / pairing off), a signature proof assembled from the public key alone (sigma2=t*sigma1, D=t*g~-X~-C folded into T), response and T / response and C moved together or oppositely}); oracle = verifier verdict == independent Schnorr / pairing evaluation on the atoms of the encoded proof and parameters, for accept and reject classes, plus the verdict expected by construction; non-trivial = any non-honest scenario; distinct by (type, N, key, scenario detail)",
+        &["Sig/degenerate/blinded-signature-identity/reject", "Sig/simulated/same-challenge/accept", "ComG1/simulated/other-challenge/reject", "Sig/compensated/schnorr-and-pairing-off/reject", "Sig/compensated/both-kept/accept", "Sig/compensated/assembled-from-public-key/reject"],
         (2400, 120_000),
         strategy,
         oracle,
